@@ -105,7 +105,8 @@ def _check_case(c):
     world = c["world"]
     files = c["files"]
     alldoc = "\n".join(d["text"] for d in docs)
-    user_targets = set(re.findall(r'href\s*=\s*"#([^"]*)"', alldoc)) | set(re.findall(r"\]\(#([^)\s]*)", alldoc))
+    user_targets = (set(re.findall(r'href\s*=\s*"#([^"]*)"', alldoc)) | set(re.findall(r"\]\(#([^)\s]*)", alldoc))
+                    | set(re.findall(r"\]:\s*#(\S*)", alldoc)))
     raw_a_unbalanced = len(re.findall(r"<a[\s>]", alldoc)) != len(re.findall(r"</a\s*>", alldoc))
     html_name = world + (".md" if c["variant"] == "html-in-md" else ".html")
     html = files.get(html_name)
